@@ -153,12 +153,17 @@ func validOptionalPort(port string) bool {
 	return true
 }
 
+// IsUnsafeMethod reports whether the method may change state on the origin
+// server. Every method that is not registered as safe (RFC 9110 §9.2.1 and the
+// IANA HTTP Method Registry) counts as unsafe, including unknown extension
+// methods, so that responses to them invalidate what is stored (RFC 9111 §4.4).
 func IsUnsafeMethod(method string) bool {
 	switch method {
-	case http.MethodPost, http.MethodPut, http.MethodDelete, http.MethodPatch:
-		return true
-	default:
+	case "", http.MethodGet, http.MethodHead, http.MethodOptions, http.MethodTrace,
+		"PROPFIND", "REPORT", "SEARCH", "QUERY", "PRI":
 		return false
+	default:
+		return true
 	}
 }
 
